@@ -150,7 +150,18 @@ def r03_3(ctx):
         want = {'Included': ordv == 'gt', 'Excluded': ordv in ('gt', 'eq'), 'Unbounded': False}[vname]
         outs = set()
         forks = 0
-        orc = bound_oracle(f, vi[vname], ordv)
+        len_forks = 0
+        orc0 = bound_oracle(f, vi[vname], ordv)
+
+        def is_len_cmp(e):
+            # a comparison of the LENGTHS of the key and the bound: says nothing about their order unless they are equal
+            return e[0] == 'bin' and e[1] in ('Lt', 'Le', 'Gt', 'Ge', 'Eq', 'Ne') and all(is_call(x, '::len') for x in (e[2], e[3]))
+
+        def orc(e, c, _o=orc0, _ordv=ordv):
+            r = _o(e, c)
+            if r is None and is_len_cmp(e) and _ordv == 'eq':
+                return int({'Lt': False, 'Le': True, 'Gt': False, 'Ge': True, 'Eq': True, 'Ne': False}[e[1]])     # equal strings have equal lengths
+            return r
         for p in explore(f, oracle=orc, max_visits=1):
             if p.end == 'return':
                 rv = p.ret()
@@ -158,8 +169,14 @@ def r03_3(ctx):
                     v = orc(rv, None)      # a comparison returned directly
                     rv = ('const', v) if v is not None else rv
                 outs.add(rv[1] if rv[0] == 'const' else fmt(rv)[:40])
-                forks += sum(1 for d in p.decisions if d[4] == 'fork')
-        if forks:
+                fk = [d for d in p.decisions if d[4] == 'fork']
+                len_forks += sum(1 for d in fk if is_len_cmp(d[2]))
+                forks += sum(1 for d in fk if not is_len_cmp(d[2]))
+        if not forks and len_forks and vname != 'Unbounded' and outs != {int(want)}:
+            # both outcomes of a length comparison occur among keys that are < (or >) the bound ("b" > "abc", "abc" > "ab")
+            ctx.violation(R, 'exceeded_by:%s,key%sbound' % (vname, {'lt': '<', 'eq': '=', 'gt': '>'}[ordv]),
+                          'exceeded_by for %s bound with key %s bound depends on the LENGTHS of key and bound (results %s, contract %s): a shorter key that sorts after the bound is not cut off' % (vname, ordv, sorted(outs, key=str), want), fn=f)
+        elif forks:
             ctx.undecided(R, 'exceeded_by:%s,key%sbound' % (vname, ordv), 'the cut-off test branches on something outside the ordering domain', fn=f)
         else:
             ctx.check(R, outs == {int(want)}, 'exceeded_by:%s,key%sbound' % (vname, {'lt': '<', 'eq': '=', 'gt': '>'}[ordv]),
